@@ -130,6 +130,7 @@ static enum DeviceStatusCode mc_trigger(struct Camera* c)
     pthread_mutex_lock(&m->mu);
     m->triggered = 1; pthread_cond_broadcast(&m->cv);
     pthread_mutex_unlock(&m->mu);
+    if (rtm.cam[m->dev].cfg.trigger_us > 0) { struct timespec ts = { 0, 1000L * rtm.cam[m->dev].cfg.trigger_us }; nanosleep(&ts, 0); } // a trigger command that returns late
     ev(0, m->dev, RTM_TRIGGER, m->instance, c->state, Device_Ok, 0);
     return Device_Ok;
 }
